@@ -218,7 +218,7 @@ RULES = [
 
 def rule_mustpass(ctx):
     from . import mustpass
-    mustpass.check(ctx, ['init-runs', 'add-model-spawns-loop', 'add-model-registers', 'sim-init-add-model-delegates', 'add-submodel-delegates'])
+    mustpass.check(ctx, ['init-runs', 'add-model-spawns-loop', 'add-model-registers', 'sim-init-add-model-delegates', 'add-submodel-delegates', 'model-task-inits', 'model-task-receives', 'model-task-ends-only-on-error-or-abort'])
 
 
 RULES.append(("C16.e", "must-pass-through: no path around the effects this property rests on (added fast paths / early returns)", rule_mustpass))
@@ -226,7 +226,7 @@ RULES.append(("C16.e", "must-pass-through: no path around the effects this prope
 
 def rule_commit(ctx):
     from . import mustpass
-    for g, floor in [('registration', 5)]:
+    for g, floor in [('registration', 5), ('mailbox-signals', 12), ('lockfree', 25)]:
         mustpass.commit_group(ctx, g, floor)
 
 
